@@ -202,6 +202,8 @@ impl WriterThreadPool {
             .get(target_thread as usize)
             .ok_or(WriteError::BucketWriterNotFound)?;
 
+        #[cfg(sierra_db_sierradb_verif)]
+        let verif_partition_id = batch.partition_id;
         let (reply_tx, reply_rx) = oneshot::channel();
         sender
             .send(WriteRequest::AppendEvents {
@@ -225,6 +227,7 @@ impl WriterThreadPool {
                 ("bucket", bucket_id as u64),
                 ("off", full_append.write_offset),
                 ("first_seq", full_append.append.first_partition_sequence),
+                ("partition", verif_partition_id as u64),
             ],
         );
 
@@ -518,6 +521,7 @@ impl Worker {
                 ("ok", res.is_ok() as u64),
                 ("first_seq", res.as_ref().map(|r| r.first_partition_sequence).unwrap_or(0)),
                 ("start", write_offset),
+                ("partition", partition_id as u64),
             ],
         );
         let _ = reply_tx.send(res.map(|append| FullAppendResult {
@@ -624,6 +628,7 @@ impl WriterSet {
                     ("seg", self.bucket_segment_id.segment_id as u64),
                     ("off", offset),
                     ("seq", partition_sequence),
+                    ("partition", req.partition_id as u64),
                 ],
             );
             // We need to guarantee:
